@@ -57,13 +57,13 @@ func main() {
 	noCache := "[cache]\ndir =\n"
 	switch *prop {
 	case "C01":
-		runs = []run{{hist.Chain{Threads: "1"}, 2, noCache, false, "1"}, {hist.Dirs{Threads: "1"}, 2, noCache, false, "1"}}
+		runs = []run{{hist.Chain{Threads: "1"}, 2, noCache, false, "1"}, {hist.Dirs{Threads: "1"}, 2, noCache, false, "1"}, {hist.PreFam{}, 2, noCache, false, "1"}}
 		if !r.Quick() {
 			runs = []run{{hist.Chain{Threads: "1"}, 3, noCache, false, "1"}, {hist.Dirs{Threads: "1"}, 3, noCache, false, "1"},
-				{hist.Chain{Threads: "4"}, 2, noCache, false, "4"}, {hist.Dirs{Threads: "4"}, 2, noCache, false, "4"}}
+				{hist.Chain{Threads: "4"}, 2, noCache, false, "4"}, {hist.Dirs{Threads: "4"}, 2, noCache, false, "4"}, {hist.PreFam{WithRm: true}, 3, noCache, false, "1"}}
 		}
 	case "C03":
-		runs = []run{{hist.Chain{Threads: "1", WithNoop: true}, 2, noCache, false, "1"}, {hist.Dirs{Threads: "1", WithNoop: true}, 2, noCache, false, "1"}}
+		runs = []run{{hist.Chain{Threads: "1", WithNoop: true}, 2, noCache, false, "1"}, {hist.Dirs{Threads: "1", WithNoop: true}, 2, noCache, false, "1"}, {hist.PreFam{WithNoop: true}, 2, noCache, false, "1"}}
 		if !r.Quick() {
 			runs = []run{{hist.Chain{Threads: "1", WithNoop: true, WithRm: true}, 3, noCache, false, "1"}, {hist.Dirs{Threads: "1", WithNoop: true, WithRm: true}, 3, noCache, false, "1"},
 				{hist.Chain{Threads: "4", WithNoop: true}, 2, noCache, false, "4"}}
